@@ -1,18 +1,18 @@
 SPECIFICATION Spec
 CONSTANTS
-  MaxLf = 2
-  MaxCalls = 4
-  Names = {"A"}
-  SetNames = {0, 1}
-  Classes = {"ZONE", "PARAMETER"}
+  MaxLf = 1
+  MaxCalls = 5
+  Names = {"A", "B"}
+  SetNames = {0}
+  Classes = {"ZONE"}
   OriginRefs = {0}
-  RefFrom = "PARAMETER"
-  RefTo = "ZONE"
-  HeaderShare = TRUE
+  RefFrom = "NONE"
+  RefTo = "NONE"
+  HeaderShare = FALSE
   OkSet = {TRUE}
   ForeignRefCheck = TRUE
   HeaderSetCheck = TRUE
-  Mutations = FALSE
+  Mutations = TRUE
   CopyRule = "firstfree"
   ItemRefs = {0}
 INVARIANT PrintLeaf
